@@ -477,7 +477,7 @@ def float_fields(o):
     """exact (hex) value of every scalar float attribute: the bfs digest rounds to a fixed
     number of decimals, too coarse for Ts = 1e-9"""
     try:
-        d = vars(o)
+        d = bfs.state_of(o)
     except TypeError:
         return ()
     return tuple(sorted((k, float(v).hex()) for k, v in d.items()
@@ -518,7 +518,7 @@ def life_configs(seed, thorough):
 def _digest(g):
     # the random source is not part of the process state (and may be the numpy.random module itself)
     import types
-    d = {k: v for k, v in vars(g).items()
+    d = {k: v for k, v in bfs.state_of(g).items()
          if not isinstance(v, (types.ModuleType, np.random.RandomState))}
     return (bfs.digest(d, 13), float_fields(g))
 
@@ -1023,7 +1023,7 @@ def run_config(chk, cfg, depth):
     def canon(hist, st):
         if st.err is not None:
             return ("failed", hist)
-        return (st.k, bfs.digest(vars(st.g), 12), float_fields(st.g))
+        return (st.k, bfs.digest(bfs.state_of(st.g), 12), float_fields(st.g))
 
     bfs.BFS(chk, b, enabled, invariant, canon, depth,
             label="cfg%d%s" % (cfg["index"], "big" if cfg.get("big") else "")).run([()])
